@@ -22,7 +22,7 @@ _CMP = {z3.Z3_OP_LE: lambda a, b: a <= b, z3.Z3_OP_GE: lambda a, b: a >= b, z3.Z
 
 
 def lia_view(S: Any, t: Any) -> Any:
-    st = S.__dict__.setdefault("_lia", {"b": {}, "i": {}, "keep": []})
+    st = S.__dict__.setdefault("_lia", {"b": {}, "i": {}, "keep": [], "memo": {}})
     return _b(S, st, t)
 
 
@@ -43,6 +43,18 @@ def _opaque_int(S: Any, st: dict[str, Any], x: Any, nonneg: bool = False) -> Any
         if nonneg:
             S.solver.add(v >= 0)
     return st["i"][k]
+
+
+def _memo(kind: str, fn: Any) -> Any:
+    def wrapped(S: Any, st: dict[str, Any], x: Any) -> Any:
+        key = (kind, x.get_id())
+        hit = st["memo"].get(key)
+        if hit is None:
+            st["keep"].append(x)  # the id stays valid while the term is referenced
+            hit = st["memo"][key] = fn(S, st, x)
+        return hit
+
+    return wrapped
 
 
 def _b(S: Any, st: dict[str, Any], x: Any) -> Any:
@@ -121,3 +133,9 @@ def _len(S: Any, st: dict[str, Any], s: Any) -> Any:
         if k == z3.Z3_OP_SEQ_EMPTY:
             return z3.IntVal(0)
     return _opaque_int(S, st, s, nonneg=True)
+
+
+# shared sub-terms (nested slices / if-then-else) are translated once per execution
+_b = _memo("b", _b)
+_i = _memo("i", _i)
+_len = _memo("len", _len)
